@@ -231,11 +231,21 @@ theorem node_indices_added_by_append_exact (c : Nat) (hc : c < 2^63) :
   ⟨forest_added c hc, added_spec c hc⟩
 example : node_indices_added_by_append 7 = some [12, 13, 14, 15] := by decide +kernel
 
+/-- **`get_peak_heights_and_peak_node_indices`**: for every leaf count below `2^63` the two nested loops terminate
+    and return the heights and the node indices of the trees of the explicit forest, oldest (highest) first.
+    (For `2^63` the Rust loop spins forever — the model returns `none` there, see the `example`.) -/
+theorem get_peak_heights_and_peak_node_indices_exact (n : Nat) (hn : n < 2^63) :
+    get_peak_heights_and_peak_node_indices n
+      = some ((forest n).peaks.map TF.Spec.Mmr.Tree.height, (forest n).peaks.map TF.Spec.Mmr.Tree.idx) :=
+  forest_peaks n hn
+example : get_peak_heights_and_peak_node_indices (2^63) = none := by decide +kernel
+example : get_peak_heights_and_peak_node_indices 11 = some ([3, 1, 0], [15, 18, 19]) := by decide +kernel
+
 /-! ## what is still open -/
 
 /-- FULL STATEMENT of C16 in executable form: for every leaf count below `2^63`, *every* index function (translated
     and hand-modelled, see `TF.Mmr.forestAgrees` / `rowAgrees`) reproduces the table of the explicit forest on every
-    node and every leaf — including `get_peak_heights_and_peak_node_indices`, `get_authentication_path_node_indices` and the Merkle-tree / peak index
+    node and every leaf — including `get_authentication_path_node_indices` and the Merkle-tree / peak index
     of every leaf as recorded in the table -/
 def all_functions_agree_with_forest_statement : Prop := ∀ n, n < 2^63 → forestAgrees n = true
 
